@@ -331,6 +331,10 @@ def run_family(ck, model_ok, prop, plan):
     from common import Model, Scratch
     quick = ck.tier == 'quick'
     other = {}
+    ck.extra.setdefault('trusted', []).append(
+        'harness/sched.py: cooperative scheduler substituted for threading / queue / time_monotonic / Reader._stop inside torf._generate for the '
+        'duration of a run (assumptions: code between two scheduling points is atomic; a timeout can expire exactly when its wait condition is unmet); '
+        'fault injection by a file proxy installed in torf._stream')
     with Scratch() as root:
         for family, nq, nt in plan:
             n = nq if quick else nt
